@@ -58,6 +58,8 @@ pub struct NodeCtx {
     pub shutdown: AtomicBool,
     /// election sleeps: true = virtual (return at once), false = real sleep
     pub virtual_sleep: AtomicBool,
+    /// start-up loads the data directory's entries sorted by name; true = descending
+    pub dir_desc: AtomicBool,
     pub sleeps: AtomicU64,
     pub events: Mutex<Vec<String>>,
 }
@@ -134,6 +136,7 @@ impl NodeCtx {
             links_cv: Condvar::new(),
             shutdown: AtomicBool::new(false),
             virtual_sleep: AtomicBool::new(true),
+            dir_desc: AtomicBool::new(false),
             sleeps: AtomicU64::new(0),
             events: Mutex::new(vec![]),
         })
@@ -156,6 +159,13 @@ impl Hooks for NodeCtx {
     }
     fn event(&self, name: &'static str, detail: &str) {
         self.events.lock().unwrap().push(format!("{} {}", name, detail));
+    }
+    fn order_dir_entries(&self, entries: &mut Vec<std::io::Result<std::fs::DirEntry>>) {
+        // read_dir order belongs to the file system; the harness decides it
+        entries.sort_by_key(|e| e.as_ref().map(|e| e.file_name()).unwrap_or_default());
+        if self.dir_desc.load(Ordering::SeqCst) {
+            entries.reverse();
+        }
     }
     fn order_keys(&self, keys: &mut Vec<(String, Value)>) {
         keys.sort_by(|a, b| a.0.cmp(&b.0));
